@@ -45,6 +45,23 @@ MISSED_FIRST = {
     "C13-P1": "no and/or had two members of the same kind, so equal members were not expressible; added (symbolic contents make them equal on some paths) plus a concrete tree with repeated members",
     "C19-P1": "registration was only followed by deliveries, never preceded by one; added every history of 3 (thorough: 4) registrations / deliveries of two custom types on one session, judged by a ghost registry",
     "C19-P2": "same: a rejected duplicate was never followed by another registration",
+    # ---- fourth round (Q).  Strengthened after reading the sub-agent's report, BEFORE the evaluation:
+    "C05-Q1": "(before evaluation) no delivered integer was longer than a machine word; added deliveries whose id / result code / limits have thousands of octets (CPython refuses to print ints of > 4300 digits, so an error text can raise)",
+    "C08-Q1": "(before evaluation) extended-operation names were the constants '1.2' and the notice OID; they are now 3 free characters over digits and dots, and `x in 'literal'` with a symbolic x is modelled",
+    "C11-Q2": "(before evaluation) application calls had fixed arguments; added scripted scenarios with rich arguments (limits over 0..2^31-1, Unicode text, attributes, referrals) whose arrival is compared with the call arguments",
+    "C12-Q2": "(before evaluation) a delivery was never required to leave the outgoing stream alone under C12 (only under C10); clause added",
+    "C13-Q1": "(before evaluation) the tree was never changed between two str() calls; added: grow every member list, the text form must follow",
+    "C16-Q2": "(before evaluation) same for definitions: append to every list / the extension dict, the text form must follow",
+    "C15-Q1": "(before evaluation) added frames (free runs of characters in header / value / rule / nested positions) and degenerate concrete strings; it is not known whether the windows would have caught it",
+    "C15-Q2": "(before evaluation) same: '(a::=x)' has 7 characters, beyond the quick whole-string bound of 5",
+    "C17-Q1": "(before evaluation) no specification had a list-valued extension followed by another extension; every order of extension forms added",
+    # missed in the blind evaluation:
+    "C01-Q2": "inconclusive at first: bytes.decode('ascii') had no model; ascii / latin-1 codecs added to the symbolic text",
+    "C09-Q2": "a refused request was not required to emit nothing under C09 (only under C10/C12); clause added: no id handed out => no bytes carrying one",
+    "C10-Q1": "inconclusive at first: enumeration lookup by symbolic text had no model (and names were constants); now one path per member that can match, ValueError otherwise",
+    "C10-Q2": "search entries carried no attribute values; they now carry one arbitrary octet, so that an error text built from the message is exercised with non-text content",
+    "C14-Q1": "no sentence had a matching rule literally named 'dn' after the dn keyword; added (and C13 no longer excludes that rule name when the flag is set)",
+    "C19-Q1": "result codes were symbolic 0..80 and the engine never stores symbolic keys in process-wide tables; added interleavings with concrete unknown codes that collide modulo 2^32",
     "C19-M2": "duplicate registration was only tried with the same class; now a different class reusing a custom or built-in id must be rejected",
 }
 
